@@ -373,7 +373,15 @@ fn viterbi_traceback(vals: Array2<LogProb>, from: Array2<usize>) -> (Vec<State>,
 /// - `O` - the observation type
 /// - `M` - type `Model` type
 pub fn viterbi<O, M: Model<O>>(hmm: &M, observations: &[O]) -> (Vec<State>, LogProb) {
-    let (vals, from) = viterbi_matrices(hmm, observations);
+    let (mut vals, from) = viterbi_matrices(hmm, observations);
+    // The most probable path also pays the end probability of its last state, exactly as
+    // `forward` and `backward` do for the sequence likelihood.
+    if !observations.is_empty() {
+        let last = observations.len() - 1;
+        for s in hmm.states() {
+            vals[[last, *s]] = vals[[last, *s]] + hmm.end_prob(s);
+        }
+    }
     viterbi_traceback(vals, from)
 }
 
